@@ -15,9 +15,21 @@ CHECKS = {
         note='As C01. File-level confirmation of each witness through DLISFile.write and the strict reader.'),
 }
 
+CHECKS['C06'] = dict(
+    smt=True,
+    text='Each representation code the writer uses is executed symbolically on the real write_struct dispatch: the six '
+         'fixed-width integer codes, UVARI and STATUS over ALL integers (in range => exact big-endian bytes, out of range '
+         '=> exception), IDENT/ASCII with symbolic length (prefix form, rejection limits) and short fully symbolic text, '
+         'OBNAME/OBJREF with symbolic origin/copy/name length, DTIME with symbolic calendar fields; UVARI additionally as '
+         'LIA over Z and the DTIME millisecond rounding as an IEEE-754 query on z3 and cvc5.',
+    note='FSINGL/FDOUBL values are delegated to struct.pack (only the format table is pinned); non-ASCII rejection is a '
+         'call-site contract on .encode("ascii"); strings longer than 3 characters have abstract content.')
+CHECKS['C01']['smt'] = True
+CHECKS['C15']['smt'] = True
+
 NOT_APPLICABLE = [
     {'property_id': p, 'reason': 'check under construction in this round (see DESIGN.md section 4); not claimed yet'}
-    for p in ['C02', 'C03', 'C04', 'C05', 'C06', 'C07', 'C08', 'C09', 'C10', 'C11', 'C12', 'C13', 'C14', 'C16', 'C17',
+    for p in ['C02', 'C03', 'C04', 'C05', 'C07', 'C08', 'C09', 'C10', 'C11', 'C12', 'C13', 'C14', 'C16', 'C17',
               'C18', 'C19', 'C20']
 ]
 
